@@ -8,6 +8,18 @@ NOTE = ("Trusted base: Coq 8.16.1 kernel; no axioms (Print Assumptions closed); 
         "hand-written Gallina model tied to /repo by a differential correspondence check (Rust harness with cfg plonk_verif hooks vs model extracted "
         "with ExtrOcamlBasic+ExtrOcamlZBigInt); the Rust code is modelled, not verified.")
 CLAIMED = {
+ "C03": dict(
+   text="A complete reference verifier is written in Gallina (Protocol/RefVerifier.v on top of Gallina models of Keccak-f/STROBE/Merlin, BLS12-381 G1 decompression with subgroup check, the 56 protocol labels and the linearisation/batching algebra of both transcript versions) and run, extracted, on the same (verifier key, proof, public inputs) triples as the real Verifier::verify_with_version; the pairing is replaced by the exponent check x*A+B=O with the harness's known SRS secret. Verdicts AND every derived challenge (beta, gamma, alpha, four separation challenges, z, v, v_w, u - exposed by a cfg-guarded hook) must agree on honest proofs, on every single-field replacement, bit flips, cross-circuit and cross-version proofs and public-input changes. Theorems: the fused L_1/PI summand equals value*L_i(z) (C03_fused_term_is_lagrange), all five widget terms are recoverable from the combined equation (C03_all_widgets_in_equation), Merlin's length framing is injective (C03_frame_injective). The equality real-verifier = RefVerifier is established by correspondence, not proved; when the transcript tie breaks, a forged opening pair exploiting the missing absorption is searched and replayed.",
+   technique="Gallina reference verifier (Keccak/Merlin/G1/linearisation) + Coq lemmas + differential correspondence of verdict and all challenges with the real verifier",
+   design="5/C03"),
+ "C04": dict(
+   text="Theorems: two public-input polynomials of degree < n that agree at n points are equal (C04_pi_eval_injective: a changed public input changes PI(z) for all but < n challenges), and the length-framed absorption of label, sizes, commitments and public inputs into the transcript is injective (C04_statement_framing_injective). Partial: binding additionally rests on Fiat-Shamir in the random-oracle model (assumed). On every run statement mismatches are presented to the real verifier and to the Gallina reference verifier (C03): other label (incl. prefixes/extensions), other public inputs (value, count, order, position), other circuit of the same size, other SRS, other transcript version, keys re-encoded with one field altered; every mismatch must be rejected by both, every match accepted. Known finding F8 (two circuits differing only in WHICH unconstrained row carries a zero public input share proofs) is reproduced on every run.",
+   technique="Coq lemmas (interpolation uniqueness, framing injectivity) + Gallina reference verifier + statement-mismatch differential check on the real verifier",
+   design="5/C04, 6/F8"),
+ "C06": dict(
+   text="Theorems on the blinding algebra exactly as coded: blind(coeffs, b) = coeffs + b(X)*(X^n-1) for every blinder vector (C06_blind_is_mask), so the mask vanishes on the domain (C06_mask_vanishes_on_domain) and two proofs with different blinders differ at every point z outside the domain by (b(z)-b'(z))*(z^n-1) (C06_fresh_mask_changes_opening); the three extra scalars re-randomise the quotient split without changing t(X) (C06_split_rerandomised). Partial: statistical zero-knowledge itself (simulator) is not mechanised. On every run the real prover is driven by a scripted RNG: it must draw exactly 14 scalars; the 7 wire/permutation openings of every proof must equal the model's opening (extracted wire_opening) computed from the witness, the drawn scalars and the verifier's z; replacing any single one of the 14 draws must change the proof and exactly the openings/commitments that draw masks.",
+   technique="Coq proof (masking algebra) + scripted-RNG differential correspondence of every opening with the extracted blinding model",
+   design="5/C06"),
  "C09": dict(
    text="Theorem C09_range_sound: for every width 0..254 (even or odd), every wire and every assignment of the gadget's accumulators, satisfaction of the emitted rows forces the canonical value below 2^width (induction along the flattened quad chain, no wrap below 2^254 < r), also inside any larger satisfied system; entry points proved to emit identical gates (clamp above 128 pairs). The layout the theorem speaks about is compared with the real Composer for every width 0..=256 / pairs 0..=130 on every run, the range widget's three coded forms are compared with the model formula, and every real snapshot is evaluated by the proved row evaluator against the expected verdict (completeness direction and adversarial accumulator templates).",
    technique="Coq proof (induction over the quad chain) + exhaustive-width differential correspondence (L3) + widget formula tie (L1) + evaluator-based exactness probe",
